@@ -176,4 +176,75 @@ theorem src_set_dispatch :
        ("triclinic", "a, b, c, alpha, beta, gamma", "cls(a=a, b=b, c=c, alpha=alpha, beta=beta, gamma=gamma)")] := by
   refine ⟨rfl, by decide, rfl, by decide, by decide, rfl, by decide⟩
 
+/-! ### extension round: the clean-up statement, the degree-level formulas, shapes, System wrappers -/
+
+/-- the `atol=1e-9` literal of the source is the threshold the driver runs the model with. -/
+theorem gen_cleanupAtol_eq_model :
+    Generated.BoxSource.cleanupAtolNum = atolNum ∧ Generated.BoxSource.cleanupAtolDen = atolDen := ⟨rfl, rfl⟩
+
+private theorem maxAbs_nonneg' (m : M3 K) : 0 ≤ maxAbs m := by
+  simp only [maxAbs, maxK_eq_max, absK_eq_abs]
+  exact le_trans (abs_nonneg m.r0.x) (le_trans (le_max_left _ _) (le_trans (le_max_left _ _) (le_max_left _ _)))
+
+private theorem abs_le_maxAbs (m : M3 K) :
+    |m.r0.x| ≤ maxAbs m ∧ |m.r0.y| ≤ maxAbs m ∧ |m.r0.z| ≤ maxAbs m ∧ |m.r1.x| ≤ maxAbs m ∧ |m.r1.y| ≤ maxAbs m ∧
+    |m.r1.z| ≤ maxAbs m ∧ |m.r2.x| ≤ maxAbs m ∧ |m.r2.y| ≤ maxAbs m ∧ |m.r2.z| ≤ maxAbs m := by
+  simp only [maxAbs, maxK_eq_max, absK_eq_abs, le_max_iff, le_refl, true_or, or_true, and_self]
+
+/-- one entry: the source divides by the largest entry and compares with `atol`, the model multiplies out
+    (`M > 0`; for `M = 0` the entry is `0` and both leave `0`). -/
+theorem gen_cleanupEntry_eq_model (thr M x : K) (hM : 0 < M) :
+    Generated.BoxSource.cleanupEntry thr M x = cleanEntry thr M x := by
+  simp only [Generated.BoxSource.cleanupEntry, cleanEntry, absK_eq_abs, abs_div, abs_of_pos hM, div_le_iff₀ hM]
+
+/-- **the clean-up statement of the `vects` setter, regenerated from the source, is the model's `cleanVects`** — for every
+    matrix and every threshold (no side condition). -/
+theorem gen_cleanup_eq_model (thr : K) (m : M3 K) : Generated.BoxSource.cleanupVects thr m = cleanVects thr m := by
+  rcases (maxAbs_nonneg' m).lt_or_eq with hM | hM
+  · simp only [Generated.BoxSource.cleanupVects, cleanVects, cleanV, gen_cleanupEntry_eq_model _ _ _ hM]
+  · obtain ⟨h1, h2, h3, h4, h5, h6, h7, h8, h9⟩ := abs_le_maxAbs m
+    rw [← hM] at h1 h2 h3 h4 h5 h6 h7 h8 h9
+    have z : ∀ x : K, |x| ≤ 0 → x = 0 := fun x hx => abs_eq_zero.mp (le_antisymm hx (abs_nonneg x))
+    have e1 := z _ h1; have e2 := z _ h2; have e3 := z _ h3; have e4 := z _ h4; have e5 := z _ h5
+    have e6 := z _ h6; have e7 := z _ h7; have e8 := z _ h8; have e9 := z _ h9
+    simp only [Generated.BoxSource.cleanupVects, Generated.BoxSource.cleanupEntry, cleanVects, cleanV, cleanEntry,
+      e1, e2, e3, e4, e5, e6, e7, e8, e9, ite_self]
+
+example : ∃ (thr : ℚ) (m : M3 ℚ), 0 < thr ∧ cleanVects thr m ≠ m ∧ (cleanVects thr m).r0.x ≠ 0 :=
+  ⟨1/1000, ⟨⟨4, 1/1000, 0⟩, ⟨1, 3, 0⟩, ⟨0, 1, 5⟩⟩, by decide +kernel, by decide +kernel, by decide +kernel⟩
+
+/-- the getters `a b c` with the root in place. -/
+theorem gen_lengths_eq_model (T : Trig K) (b : Box K) :
+    Generated.BoxSource.aLen T b.vects = lenOf T b.vects.r0 ∧ Generated.BoxSource.bLen T b.vects = lenOf T b.vects.r1 ∧
+    Generated.BoxSource.cLen T b.vects = lenOf T b.vects.r2 := ⟨rfl, rfl, rfl⟩
+
+/-- the clamp of `vect_angle` (scalar and array branch agree, checked by the translator). -/
+theorem gen_clamp_eq_model (c : K) : Generated.BoxSource.vectAngleClamp c = clampCos c := rfl
+
+/-- `vect_angle` down to the angle in degrees = the model's `angleDeg`. -/
+theorem gen_angleDeg_eq_model (T : Trig K) (u v : V3 K) : Generated.BoxSource.vectAngleDeg T u v = angleDeg T u v := rfl
+
+/-- the straight-line part of `set_abc` with the library calls in place = the model's `abcOfDeg`. -/
+theorem gen_abcOfDeg_eq_model (T : Trig K) (a b c al be ga : K) :
+    Generated.BoxSource.abcOfDegSrc T a b c al be ga = abcOfDeg T a b c al be ga := rfl
+
+/-- shapes: both conversions refuse exactly a trailing dimension other than 3 (`convShape`); `Plane.below` contracts the
+    trailing axis (`insideShape`). -/
+theorem gen_shapes_eq_model (sh : List Nat) (d : Nat) (h : sh.getLast? = some d) :
+    Generated.BoxSource.r2cTrailingDim = 3 ∧ Generated.BoxSource.c2rTrailingDim = 3 ∧
+    Generated.BoxSource.belowInnerOverLastAxis = true ∧
+    (convShape sh = .errValue ↔ d ≠ Generated.BoxSource.r2cTrailingDim) ∧
+    (convShape sh = .ok sh ↔ d = Generated.BoxSource.c2rTrailingDim) := by
+  refine ⟨rfl, rfl, rfl, ?_, ?_⟩
+  · simp only [convShape, h, Generated.BoxSource.r2cTrailingDim]
+    by_cases hd : d = 3 <;> simp [hd]
+  · simp only [convShape, h, Generated.BoxSource.c2rTrailingDim]
+    by_cases hd : d = 3 <;> simp [hd]
+
+/-- `System.scale` / `System.unscale` are the two conversions of the system's box. -/
+theorem gen_system_wrappers :
+    Generated.BoxSource.systemWrappers =
+      [("scale", "self.box.position_cartesian_to_relative(value)"),
+       ("unscale", "self.box.position_relative_to_cartesian(value)")] := by decide
+
 end Atomman.C01
